@@ -15,6 +15,8 @@ from rpylib.model.levydrivensde.levylibormodel import LevyLiborModel
 from rpylib.model.utils import create_levy_forward_market_model, create_levy_forward_market_model_copula
 from rpylib.montecarlo.path import StochasticJumpPath
 from rpylib.process.coupling.couplingsde import CouplingSDE
+from rpylib.process.markovchain.markovchain import MarkovChainProcess
+from rpylib.process.markovchain.markovchainlevycopula import MarkovChainLevyCopula
 from rpylib.process.markovchain.markovchainsde import MarkovChainSDE, MarkovChainLevyLiborModel
 from rpylib.product.payoff import PayoffOnTheFly
 from rpylib.product.product import Product
@@ -304,6 +306,23 @@ def probe_single(ctx, desc):
 
 
 # --------------------------------------------------------------------------------------------- coupled pair
+def reference_chain_drift(desc, level, prod):
+    """drift of a *fresh* CTMC of the driver on the grid refined `level` times — built independently of the object under
+    test: the coupled scheme at level l must use the drift of the level-l chain (fine) and of the level-(l-1) chain (coarse)"""
+    dd = desc["driver"]
+    d = dd["dim"]
+    driver = make_driver(dd)
+    grid = make_grid(desc["grid"], d)
+    for _ in range(level):
+        grid.refine()
+    if d == 1:
+        chain = MarkovChainProcess(model=driver, method=METHODS[desc["method"]], grid=grid)
+    else:
+        chain = MarkovChainLevyCopula(levy_copula_model=driver, grid=grid, method=METHODS[desc["method"]])
+    chain.initialisation(product=prod)
+    return np.atleast_1d(np.asarray(chain.process_drift(), float)).flatten()
+
+
 def norm_pair(path, d):
     times = np.asarray(path.jump_times, float)
     W = np.asarray(path.diffusion_path, float).reshape(2, d, times.size)
@@ -334,6 +353,20 @@ def probe_coupled(ctx, desc):
     if not (math.isclose(cp.epsilon, eps, rel_tol=1e-14) and getattr(sim, "epsilon", None) == cp.epsilon):
         ctx.fail("corr", "c16.epsilon", desc, {"name": "epsilon = (h/2)^BG handed to the coupled driver (couplingsde.py:135-137)",
                                                "epsilon": cp.epsilon, "h^BG": eps}, cls=cls)
+    # ---- S: the driver drift of each component is the drift of *its own* chain: level l (fine), level l-1 (coarse),
+    #         recomputed from fresh chains (not read from the object under test)
+    lvl = desc["level"]
+    ref = [reference_chain_drift(desc, lvl, prod), reference_chain_drift(desc, lvl - 1, prod)]
+    used = [np.atleast_1d(np.asarray(cp.mc_drift_h, float)).flatten(), np.atleast_1d(np.asarray(cp.mc_drift_2h, float)).flatten()]
+    for c in (0, 1):
+        tol = 1e-12 * np.maximum(np.abs(ref[c]), 1e-3)
+        if used[c].shape != ref[c].shape or not np.all(np.abs(used[c] - ref[c]) <= tol):
+            ctx.fail("oracle", probe + ".driver_drift", desc,
+                     {"what": "the %s component of the coupled scheme at level %d does not use the drift of the level-%d chain of its driver"
+                              % (("fine", "coarse")[c], lvl, lvl - c), "used": used[c].tolist(), "fresh_chain_drift": ref[c].tolist(),
+                      "h_of_that_chain": h0 / 2 ** (lvl - c)}, cls=cls)
+            ctx.count(probe, desc, nontrivial=True, branch=f"drift_mismatch:l{lvl}")
+            return
     captured = []
     if desc.get("scripted"):
         sp = desc["scripted"]
@@ -541,7 +574,7 @@ def gen_case(rng, coupled, scripted, kinds=None):
     desc = dict(driver=dd, coef=cd, grid=dict(h=rng.choice([0.2, 0.1, 0.05]), nb=rng.choice([5, 7, 9]) if dim == 1 else 5),
                 method=rng.choice(list(METHODS)) if dim == 1 else "INVERSION", np_seed=rng.randrange(2 ** 31))
     if coupled:
-        desc["level"] = rng.choice([1, 1, 2])
+        desc["level"] = rng.choice([1, 2, 2, 3]) if dim == 1 else rng.choice([1, 2])
     if scripted:
         desc["scripted"] = gen_scripted(rng, dim, cd["maturity"], coupled)
     return desc
@@ -568,6 +601,13 @@ def run(ctx):
                            coef=dict(kind="diag", m=2, d=2, x0=[1.0, 2.0], maturity=1.0)))
     probe_single(ctx, dict(base, driver=dict(dim=1, fams=["hem"], params=[{}]),
                            coef=dict(kind="forward", m=2, d=1, x0=[0.02, 0.03], tenors=[0.5, 1.0, 1.5], sigma=[[0.5], [0.8]], maturity=1.0)))
+    # asymmetric drivers (the chain drift depends on the grid step) at coupled levels 1..3, constant coefficient: X_T = x0 + a*Y_T with
+    # the drift of Y recomputed from fresh chains
+    for fam, params in (("cgmy", dict(c=1.0, g=5.0, m=12.0, y=0.5)), ("hem", dict(sigma=0.2, p=0.3, eta1=25.0, eta2=8.0, intensity=4.0)),
+                        ("merton", dict(sigma=0.1, sigma_j=0.15, mu_j=0.08, intensity=3.0))):
+        for level in (1, 2, 3):
+            probe_coupled(ctx, dict(base, np_seed=level, driver=dict(dim=1, fams=[fam], params=[params]), level=level,
+                                    coef=dict(kind="const", m=1, d=1, c=0.75, x0=[1.5], maturity=1.0)))
     single_kinds = ["const", "diag", "affine", "affine", "forward", "libor"]
     for i in range(ctx.n(250, 3000)):
         desc = gen_case(rng, coupled=False, scripted=(i % 3 == 2), kinds=single_kinds)
